@@ -211,6 +211,9 @@ def run(ctx):
                     per_byte, whyd = False, "an iteration of ascii_decode's loop can emit two characters for one byte"
     elif calls(prog, f, r"Iterator::map$") and any(g.kind == "Closure" and g.locals[0] == "char" for g in unit):
         per_byte = True
+    rv_ = [cname(prog, t).rsplit("::", 1)[-1] for g_ in unit + prog.unit(prog.fn("msi::internal::codepage::ascii_encode")) for b, t in g_.calls()
+           if re.search(r"Iterator::rev$|<impl \[T\]>::reverse$|DoubleEndedIterator::rev$", t.get("callee") or "")]
+    ctx.check(not rv_, "REPL", "ASCII codec keeps the order of the input", "", "ascii_encode / ascii_decode reverse their sequence (%s)" % rv_, f.loc(), fn=f.name, key="REPL|ascii-order")
     consts = [o["int"] for g in unit for bl in g.blocks for st in bl["stmts"] for o in st["rhs"].get("ops", []) if o.get("k") == "const" and o.get("ty") == "char" and "int" in o] + \
         [a["int"] for g in unit for b, t in g.calls() for a in t["args"] if a.get("k") == "const" and a.get("ty") == "char" and "int" in a]
     ctx.check(per_byte and set(consts) <= {0xFFFD} and bool(consts), "REPL", "ascii_decode emits one character per byte (U+FFFD for non-ASCII)", "", whyd if not per_byte else
